@@ -29,7 +29,7 @@ namespace vf {
 
 const char* property_id() { return "C10"; }
 unsigned case_timeout_s() { return 120; }
-uint64_t num_cases(bool thorough) { return thorough ? 70000 : 2100; }
+uint64_t num_cases(bool thorough) { return thorough ? 210000 : 2100; }
 void final_report() {}
 
 static const int NBATCH = 7;
